@@ -657,11 +657,16 @@ PKG = "zcvc10pkg"
 
 
 def split(root, mode):
-    """The same definitions as two documents: the type definitions move to a second document
-    that the schema imports -- a schema document named by relative 'src', or the component.xml
-    of a package.  -> (schema element, second element)"""
+    """The same definitions as several documents.  -> (schema element, second element, third or None)
+
+    src      the type definitions move to a schema document imported by relative 'src'
+    package  ... to the component.xml of a package
+    cycle    ... to two component files of one package that import each other (the first half
+             of the types in second.xml, which component.xml imports before defining the rest)
+    extends  ... to a base schema with ANOTHER key type, which the schema 'extends' while
+             stating its own key type"""
     schema = copy.deepcopy(root)
-    comp = ET.Element("schema" if mode == "src" else "component")
+    comp = ET.Element("schema" if mode in ("src", "extends") else "component")
     if root.get("prefix") is not None:
         comp.set("prefix", root.get("prefix"))
     comp.text = root.text
@@ -674,10 +679,31 @@ def split(root, mode):
             comp.append(child)
     if where is None:
         return None
+    comp2 = None
+    if mode == "extends":
+        own = schema.get("keytype") or "basic-key"
+        schema.set("keytype", own)
+        comp.set("keytype", "identifier" if own != "identifier" else "basic-key")
+        schema.set("extends", "zcv-comp.xml")
+        return schema, comp, None
+    if mode == "cycle":
+        kids = list(comp)
+        comp2 = ET.Element("component")
+        if root.get("prefix") is not None:
+            comp2.set("prefix", root.get("prefix"))
+        back = ET.Element("import", package=PKG)
+        back.tail = "\n"
+        comp2.append(back)
+        for child in kids[:(len(kids) + 1) // 2]:
+            comp.remove(child)
+            comp2.append(child)
+        fwd = ET.Element("import", package=PKG, file="second.xml")
+        fwd.tail = "\n"
+        comp.insert(0, fwd)
     imp = ET.Element("import", src="zcv-comp.xml") if mode == "src" else ET.Element("import", package=PKG)
     imp.tail = "\n"
     schema.insert(where, imp)
-    return schema, comp
+    return schema, comp, comp2
 
 
 def component_edits():
@@ -712,7 +738,7 @@ def _cleanup(d, pid):
         shutil.rmtree(d, True)
 
 
-def load_split(schema_xml, comp_xml):
+def load_split(schema_xml, comp_xml, comp2_xml=None):
     ZConfig = loadcheck.zc()
     import ZConfig.loader
     d = _SHARED.get(("dir", os.getpid()))
@@ -733,6 +759,12 @@ def load_split(schema_xml, comp_xml):
     for target in (os.path.join(d, "zcv-comp.xml"), os.path.join(d, PKG, "component.xml")):
         with open(target, "w", encoding="utf-8") as f:
             f.write(comp_xml)
+    second = os.path.join(d, PKG, "second.xml")
+    if comp2_xml is not None:
+        with open(second, "w", encoding="utf-8") as f:
+            f.write(comp2_xml)
+    elif os.path.exists(second):
+        os.remove(second)
     try:
         ZConfig.loader.SchemaLoader().loadURL(os.path.join(d, "zcv-schema.xml"))
         return "ok"
@@ -742,8 +774,42 @@ def load_split(schema_xml, comp_xml):
         return ("other", type(e).__name__ + ": " + str(e)[:150])
 
 
-def check_doc(xml, expect_valid, label="", comp=None):
-    r = load(xml) if comp is None else load_split(xml, comp)
+class PlainNames:
+    """The documented extension point: a registry whose search() also knows names of the
+    application's own that are not dotted."""
+    _cls = []
+
+    @classmethod
+    def make(cls):
+        if not cls._cls:
+            import ZConfig.datatypes
+
+            class AppRegistry(ZConfig.datatypes.Registry):
+                def search(self, name):
+                    if name == "zcvplain":
+                        return str
+                    return ZConfig.datatypes.Registry.search(self, name)
+            cls._cls.append(AppRegistry)
+        return cls._cls[0]()
+
+
+def load_with_registry(xml):
+    ZConfig = loadcheck.zc()
+    import ZConfig.loader
+    try:
+        ZConfig.loader.SchemaLoader(PlainNames.make()).loadFile(io.StringIO(xml))
+        return "ok"
+    except ZConfig.SchemaError:
+        return "schema-error"
+    except Exception as e:  # noqa
+        return ("other", type(e).__name__ + ": " + str(e)[:150])
+
+
+def check_doc(xml, expect_valid, label="", comp=None, comp2=None, registry=False):
+    if registry:
+        r = load_with_registry(xml)
+    else:
+        r = load(xml) if comp is None else load_split(xml, comp, comp2)
     if expect_valid:
         if r == "ok":
             return []
@@ -761,7 +827,7 @@ def evaluate(case):
         g = optprobe.verdicts([{"xml": case["xml"], "text": None}], "-O")[0]
         w = "schema-ok" if case.get("valid") else "schema-error"
         return [] if g == w else [failure("verdict-under-python-O:%s-instead-of-%s" % (g.split(":")[0], w), case, "")]
-    fl = check_doc(case["xml"], case.get("valid", False), case.get("edit", ""), case.get("comp"))
+    fl = check_doc(case["xml"], case.get("valid", False), case.get("edit", ""), case.get("comp"), case.get("comp2"), case.get("registry", False))
     return [failure(sig, case, d) for sig, d in fl]
 
 
@@ -869,16 +935,17 @@ def run_shard(spec):
                     res.sample({"edit": label, "xml": x2})
             for sig, d in check_doc(x2, False, label):
                 res.fail(sig, {"xml": x2, "valid": False, "edit": label}, d)
-        # the same definitions in two documents: the types in a component the schema imports
-        mode = ("src", "package")[(i // 5) % 2]
-        parts = split(root, mode) if i % 5 == 0 else None
+        # the same definitions in several documents (see split())
+        mode = ("src", "package", "cycle", "extends")[(i // 4) % 4]
+        parts = split(root, mode) if i % 4 == 0 else None
         if parts is not None:
-            sx, cx = render(parts[0]), render(parts[1])
+            rr = lambda el: None if el is None else render(el)      # noqa: E731
+            sx, cx, c2x = rr(parts[0]), rr(parts[1]), rr(parts[2])
             res.evaluations += 1
             counters["valid-split-documents:" + mode] += 1
-            fl2 = [(sig + ":types-in-component", d) for sig, d in check_doc(sx, True, "", cx)]
+            fl2 = [(sig + ":types-in-%s" % mode, d) for sig, d in check_doc(sx, True, "", cx, c2x)]
             for sig, d in fl2:
-                res.fail(sig, {"xml": sx, "comp": cx, "valid": True}, d)
+                res.fail(sig, {"xml": sx, "comp": cx, "comp2": c2x, "valid": True}, d)
             if not fl2:
                 for label, depth, fn in chosen:
                     r2 = copy.deepcopy(root)
@@ -887,28 +954,53 @@ def run_shard(spec):
                         p2 = split(r2, mode)
                     except Exception:  # noqa
                         continue
-                    # only edits whose whole effect lies in the type definitions
-                    if p2 is None or render(p2[0]) != sx or render(p2[1]) == cx:
+                    if p2 is None:
+                        continue
+                    s2x, c2, c22 = rr(p2[0]), rr(p2[1]), rr(p2[2])
+                    if mode == "extends":
+                        # the base is read first: "used before defined" between a type and a
+                        # top-level section does not arise
+                        if label.startswith("R3:section-of-later-type") or (s2x == sx and c2 == cx):
+                            continue
+                    elif s2x != sx or (c2 == cx and c22 == c2x):
+                        # only edits whose whole effect lies in the type definitions
                         continue
                     res.evaluations += 1
                     counters["split-edit:" + label.split(":")[0]] += 1
-                    res.nontrivial(key=render(p2[1]))
-                    for sig, d in check_doc(sx, False, label, render(p2[1])):
-                        res.fail(sig + ":in-component", {"xml": sx, "comp": render(p2[1]), "valid": False, "edit": label}, d)
+                    res.nontrivial(key=s2x + c2 + (c22 or ""))
+                    for sig, d in check_doc(s2x, False, label, c2, c22):
+                        res.fail(sig + ":in-%s" % mode, {"xml": s2x, "comp": c2, "comp2": c22, "valid": False, "edit": label}, d)
                 for label, fn in component_edits():
+                    if mode in ("src", "extends") and not label.startswith("R13"):
+                        # an imported or extended schema document may have items of its own
+                        continue
                     c2 = copy.deepcopy(parts[1])
                     try:
                         fn(c2)
                     except LookupError:
                         continue
-                    if mode == "src" and not label.startswith("R13"):
-                        # an imported schema document may have items of its own (they are not imported)
-                        continue
                     res.evaluations += 1
                     counters["component-edit:" + label] += 1
                     res.nontrivial(key=render(c2))
-                    for sig, d in check_doc(sx, False, label, render(c2)):
-                        res.fail(sig, {"xml": sx, "comp": render(c2), "valid": False, "edit": label}, d)
+                    for sig, d in check_doc(sx, False, label, render(c2), c2x):
+                        res.fail(sig, {"xml": sx, "comp": render(c2), "comp2": c2x, "valid": False, "edit": label}, d)
+        # a registry of the application's own that resolves plain names through search()
+        if i % 4 == 1 and 'datatype="string"' in xml:
+            x3 = xml.replace('datatype="string"', 'datatype="zcvplain"')
+            res.evaluations += 1
+            counters["valid-documents:own-registry"] += 1
+            for sig, d in check_doc(x3, True, "", registry=True):
+                res.fail(sig + ":own-registry", {"xml": x3, "valid": True, "registry": True}, d)
+            for label, depth, fn in chosen[:6]:
+                r2 = copy.deepcopy(root)
+                try:
+                    fn(r2)
+                except Exception:  # noqa
+                    continue
+                x4 = render(r2).replace('datatype="string"', 'datatype="zcvplain"')
+                res.evaluations += 1
+                for sig, d in check_doc(x4, False, label, registry=True):
+                    res.fail(sig + ":own-registry", {"xml": x4, "valid": False, "edit": label, "registry": True}, d)
         # pairs of edits
         for _ in range(3):
             if len(es) < 2:
